@@ -117,6 +117,59 @@ func checkC07(c *Check) {
 				c.Bad(k, p.Pos(in.Pos()), "a method is invoked on a map element that is absent for some requests (e.g. an unknown HTTP method): nil-interface panic while serving", path)
 			}
 		})
+		// what is dispatched comes from this request's own lookup: the shortcut hit or Match's result on its
+		// ok edge; the not-found chain only after the tree was missing or Match said no (no result cache)
+		var matchCall ssa.Value
+		allInstrs(sh, func(in ssa.Instruction) {
+			if cl, ok := in.(*ssa.Call); ok && callName(&cl.Call) == "(route.Tree).Match" {
+				matchCall = cl
+			}
+		})
+		for _, s0 := range starts {
+			ci := s0.(ssa.CallInstruction)
+			k := key + ":dispatch-provenance"
+			if h := asCall(ci.Common().Value); h != nil && callName(&h.Call) == "(route.Leaf).Handler" {
+				leaf := strip(h.Call.Value)
+				okProv := false
+				var g EdgeSet
+				if e, isE := leaf.(*ssa.Extract); isE && e.Index == 0 {
+					switch t := e.Tuple.(type) {
+					case *ssa.Lookup:
+						if lk2, isL := strip(t.X).(*ssa.Lookup); isL && vField(vParam(sh, 0), "staticRoutes")(lk2.X) {
+							okProv = true
+							g = edgesWhere(sh, cBool(vExtract(1, vIs(t))), true)
+						}
+					case *ssa.Call:
+						if callName(&t.Call) == "(route.Tree).Match" {
+							okProv = true
+							g = edgesWhere(sh, cBool(vExtract(2, vIs(t))), true)
+						}
+					}
+				}
+				okG := false
+				if okProv && len(g) > 0 {
+					okG, _ = guardedBy(sh, g, isInstr(s0))
+				}
+				c.Cond(okProv && okG, k, p.Pos(s0.Pos()), "dispatched leaf = shortcut hit or Match result, on its ok edge", "a leaf is dispatched that does not come from this request's shortcut lookup or tree match (e.g. a result cache): the outcome depends on earlier requests or registrations")
+			} else {
+				// not-found: only on the missing-tree edge or the Match-failed edge
+				g := EdgeSet{}
+				allInstrs(sh, func(in ssa.Instruction) {
+					if lk, ok := in.(*ssa.Lookup); ok && lk.CommaOk && vField(vParam(sh, 0), "routeTrees")(lk.X) {
+						g.addAll(edgesWhere(sh, cBool(vExtract(1, vIs(lk))), false))
+					}
+				})
+				if matchCall != nil {
+					g.addAll(edgesWhere(sh, cBool(vExtract(2, vIs(matchCall))), false))
+				}
+				okG, path := guardedBy(sh, g, isInstr(s0))
+				if okG && len(g) > 0 {
+					c.OK(k+":not-found", p.Pos(s0.Pos()), "not-found only after the method's tree was missing or Match reported no match for this request", numInstrs(sh))
+				} else {
+					c.Bad(k+":not-found", p.Pos(s0.Pos()), "the not-found chain can run without the tree having been asked for this request (e.g. a cache of earlier misses): a route registered meanwhile, or admitting the path, is ignored", path)
+				}
+			}
+		}
 		// the handler invoked is the matched leaf's, with the request's own w and req
 		for _, s := range starts {
 			a := s.(ssa.CallInstruction).Common().Args
@@ -125,6 +178,53 @@ func checkC07(c *Check) {
 		}
 	} else {
 		c.Anchor("router.ServeHTTP")
+	}
+	// who may start a chain at all
+	{
+		shF := p.Meth("flamego", "router", "ServeHTTP")
+		fsF := p.Meth("flamego", "Flame", "ServeHTTP")
+		next := p.Meth("flamego", "context", "Next")
+		nOK := 0
+		for _, fn := range p.Funcs() {
+			allInstrs(fn, func(in ssa.Instruction) {
+				ci, ok := in.(ssa.CallInstruction)
+				if !ok {
+					return
+				}
+				kind := ""
+				switch {
+				case callName(ci.Common()) == "dynamic" && vFieldNamed("notFound")(ci.Common().Value):
+					kind = "notFound"
+				case ci.Common().IsInvoke() && ci.Common().Method.Name() == "ServeHTTP" && namedName(ci.Common().Value.Type()) == "Router":
+					kind = "Router.ServeHTTP"
+				case ci.Common().StaticCallee() != nil && ci.Common().StaticCallee() == shF:
+					kind = "Router.ServeHTTP"
+				case ci.Common().IsInvoke() && p.methodAliasName(ci.Common().Method.Name()) == "run" && namedName(ci.Common().Value.Type()) == "internalContext":
+					kind = "run"
+				}
+				if kind == "" {
+					return
+				}
+				allowed := false
+				switch kind {
+				case "notFound":
+					allowed = fn == shF
+				case "Router.ServeHTTP":
+					allowed = fn == fsF
+				case "run":
+					par := fn.Parent()
+					allowed = fn == next || (par != nil && par.Signature.Recv() != nil && namedName(derefT(par.Signature.Recv().Type())) == "router" && (par.Name() == "Route" || par.Name() == "NotFound"))
+				}
+				if allowed {
+					nOK++
+				} else {
+					c.Bad(p.FuncKey(fn)+":starts-chain:"+kind, p.Pos(in.Pos()), "a handler chain is started ("+kind+") outside the dispatch points (router.ServeHTTP for not-found, Flame.ServeHTTP for the router, the route/not-found closures for run): a request can run a second chain, e.g. from a recover handler")
+				}
+			})
+		}
+		if nOK > 0 {
+			c.OK("flamego:chain-start-sites", "router.go", fmt.Sprintf("%d chain-start call sites, all at the dispatch points", nOK), nOK)
+		}
 	}
 	if fs := p.Meth("flamego", "Flame", "ServeHTTP"); fs != nil {
 		key := p.FuncKey(fs)
